@@ -414,7 +414,7 @@ def demo(args):
                     print("patch failed", err)
                     return
             open(dst, "w").write(src)
-            rc, out, secs = run(["go", "test", "-count=1", "-vet=off", "-timeout", "60s", "-run", "^" + name + "$", "./" + d], wt, 200)
+            rc, out, secs = run(["go", "test", "-count=1", "-vet=off", "-timeout", "60s"] + (["-v"] if args.v else []) + ["-run", "^" + name + "$", "./" + d], wt, 200)
             print("%s tree: %s" % (label, "PASS" if rc == 0 else "FAIL (rc=%s)" % rc))
             if rc != 0 or args.v:
                 print("\n".join("    " + l for l in out.splitlines()[:args.lines]))
